@@ -11,6 +11,8 @@
 //!  * `Resp`  : `NamedFile::open(file of the given length).into_response(&req)` with Range and
 //!              conditional headers, body stream polled chunk by chunk;
 //!  * `Trunc` : same, the file is truncated after `open` (short reads / UnexpectedEof).
+//!  * `Std`   : `std::path::Path::components` / `join` themselves, to tie the model's std::path
+//!              functions (used by the under-root theorem) to the standard library.
 //!
 //! The property oracle judges the implementation's output only: no panic, canary never served, a
 //! 200 body is a file under the root, status in {200,206,304,412,416,400}, 206 has a well-formed
@@ -48,6 +50,9 @@ enum Case {
     /// `range`: hex of the raw header value (may be non-ASCII); im/inm/ius/ims: header variants
     Resp { size: u64, range: Option<String>, im: u8, inm: u8, ius: u8, ims: u8, sync: bool },
     Trunc { size: u64, actual: u64, range: Option<String> },
+    /// std::path itself: `Path::new(p).components()` and `Path::new(base).join(p)` (ties the
+    /// model's `components` / `join` to the standard library)
+    Std { base: String, p: String },
 }
 
 // ------------------------------------------------------------------ fixture
@@ -358,6 +363,19 @@ fn err_code(e: &UriSegmentError) -> u8 {
     }
 }
 
+fn v_components(p: &Path) -> V {
+    V::L(p
+        .components()
+        .map(|c| match c {
+            Component::RootDir => V::t0("root"),
+            Component::CurDir => V::t0("cur"),
+            Component::ParentDir => V::t0("parent"),
+            Component::Normal(s) => V::h(s.as_bytes()),
+            Component::Prefix(_) => V::t0("prefix"),
+        })
+        .collect())
+}
+
 fn normal_components(p: &Path) -> Result<Vec<Vec<u8>>, String> {
     let mut out = vec![];
     for c in p.components() {
@@ -387,13 +405,24 @@ fn run_path(hidden: bool, s: &str) -> (Option<V>, String, Result<(), String>) {
             let raw = p.as_os_str().as_bytes().to_vec();
             match normal_components(p) {
                 Ok(comps) => {
-                    let v = V::T("ok", vec![V::h(&raw), V::L(comps.iter().map(V::h).collect())]);
                     // lexical containment: joined onto a root, the path stays below it
                     let joined = Path::new("/r/oot").join(p);
+                    let joined2 = Path::new("r/./oot/").join(p);
+                    let v = V::T(
+                        "ok",
+                        vec![
+                            V::h(&raw),
+                            V::L(comps.iter().map(V::h).collect()),
+                            V::h(joined.as_os_str().as_bytes()),
+                            v_components(&joined),
+                            V::h(joined2.as_os_str().as_bytes()),
+                            v_components(&joined2),
+                        ],
+                    );
                     let ok = joined.starts_with("/r/oot") && !p.is_absolute() && !p.has_root();
                     (Some(v.clone()), v.show(), if ok { Ok(()) } else { Err(format!("{joined:?} leaves the root")) })
                 }
-                Err(why) => (Some(V::T("ok", vec![V::h(&raw), V::L(vec![])])), format!("ok {raw:?}"), Err(why)),
+                Err(why) => (Some(V::T("ok", vec![V::h(&raw), V::L(vec![]), V::h(b""), V::L(vec![]), V::h(b""), V::L(vec![])])), format!("ok {raw:?}"), Err(why)),
             }
         }
     }
@@ -683,6 +712,16 @@ where
                 }
             }
         }
+        Case::Std { base, p } => {
+            tags.push("kind:std-path".into());
+            let joined = Path::new(base).join(p);
+            let v = V::T("std", vec![v_components(Path::new(p)), V::h(joined.as_os_str().as_bytes()), v_components(&joined)]);
+            coq_case = Some(format!("CStd {} {}", coq_bytes(base.as_bytes()), coq_bytes(p.as_bytes())));
+            nontrivial = p.contains('/') || p.contains('.');
+            show = v.show();
+            verdict = Ok(());
+            expect = Some(v);
+        }
         Case::Range { hdr, size } => {
             tags.push("kind:range".into());
             let r = catch(|| HttpRange::parse(hdr, *size));
@@ -905,6 +944,17 @@ fn main() {
                 let n = r.range(1, 10) as usize;
                 let s = tokens_string(&mut r, n, true);
                 emit_case(&cx, &mut em, format!("path-gen-{i}"), Case::Path { hidden: r.chance(1, 3), s }).await;
+            }
+            // std::path semantics the model relies on
+            for i in 0..scale(150, 1500) {
+                let mut r = rng.fork();
+                let toks: &[&str] = &["a", ".", "..", "/", "//", "b.", ".c", "\\", "é", "...", "a/", "/."];
+                let mk = |r: &mut Rng, n: usize| -> String { (0..n).map(|_| *r.pick(toks)).collect() };
+                let nb = r.below(5) as usize;
+                let np = r.below(6) as usize;
+                let base = mk(&mut r, nb);
+                let p = mk(&mut r, np);
+                emit_case(&cx, &mut em, format!("std-gen-{i}"), Case::Std { base, p }).await;
             }
             // (b) Range parsing and responses
             for i in 0..scale(500, 5000) {
